@@ -13,6 +13,8 @@ func RecoverHandler(next http.Handler) http.Handler {
 		defer func() {
 			if result := recover(); result != nil {
 				internal.Error(r, fmt.Sprintf("%v\n%s", result, debug.Stack()))
+				// 处理器声明的 Content-Length 描述的是并未写出的响应体；带着它的 500 不是一个完整的响应
+				w.Header().Del("Content-Length")
 				w.WriteHeader(http.StatusInternalServerError)
 			}
 		}()
